@@ -29,6 +29,7 @@ ASSUMPTIONS = [
     "bytes appended after the 16-byte ciphertext are not an 'invalid point' and are only recorded",
 ]
 TIMEOUT = {"quick": 900, "thorough": 8 * 3600}
+OPTIMIZED_SHARDS = ("unwrap00",)  # these shards also run under python -O
 NSH = 16
 
 PUBLISHED = {
